@@ -362,9 +362,12 @@ func (server *Server) readRequestBody(ctx *Context) (err error) {
 func (server *Server) callService(ctx *Context) {
 	var err error
 	if ctx.upgrade.Stream == openStream {
+		// acknowledge the stream before the handler can write its first message
+		server.sendResponse(ctx)
 		go func() {
 			ctx.f.ValueCall(ctx.args)
 		}()
+		return
 	} else if ctx.upgrade.Stream == streaming {
 		if streamCtx := ctx.ctx; streamCtx != nil {
 			value := GetBuffer(len(ctx.value))
